@@ -12,7 +12,7 @@
                                   (+ the Lagrange kernel term)
    FOLD  layer d+1 at r        =  the interpolant of layer d on the coset of r, evaluated at the layer's challenge
    REM   remainder at the last folded points = last folded values; coefficients above n / N^layers are zero                    *)
-EXTENDS ToyExt, Json, IOUtils, Naturals, FiniteSets, TLC
+EXTENDS ToyExt, MerkleChain, Json, IOUtils, Naturals, FiniteSets, TLC
 
 Rec == ndJsonDeserialize(IOEnv.TRACE)
 VARIABLE l
@@ -128,8 +128,13 @@ FriEnd == LET st0 == [pos |-> E.positions, vals |-> [k \in DOMAIN E.positions |-
 \* probability 1/p per coefficient) may hit the domains: not judged
 InBase(a) == \A i \in 2..Deg : a[i] = 0
 Degenerate == InBase(Z)
-ModelStage == IF ~ShapeOK THEN "shape" ELSE IF ~CoeffsOK THEN "coefficients" ELSE IF Degenerate THEN "degenerate"
-              ELSE IF ~OodOK THEN "ood" ELSE IF ~DeepCoeffsOK THEN "coefficients" ELSE FriEnd
+\* COMMIT: every opened row - main and auxiliary segment, composition columns, every FRI layer - is tied to its commitment by merges
+\* the verifier performed (MerkleChain.tla); judged when the algebra holds
+CommitOK == /\ Len(E.trees) = (IF Len(E.aux_rows) > 0 THEN 3 ELSE 2) + E.layers
+            /\ \A i \in DOMAIN E.trees : TreeOK(E.merges, E.trees[i])
+Algebra == IF ~ShapeOK THEN "shape" ELSE IF ~CoeffsOK THEN "coefficients" ELSE IF Degenerate THEN "degenerate"
+           ELSE IF ~OodOK THEN "ood" ELSE IF ~DeepCoeffsOK THEN "coefficients" ELSE FriEnd
+ModelStage == IF Algebra = "accept" /\ ~CommitOK THEN "commitment" ELSE Algebra
 
 Proof == /\ E.ev = "proof"
          /\ LET ms == ModelStage
